@@ -105,7 +105,7 @@ impl RefFront {
     }
 }
 const MAX_DEPTH: usize = 2;
-fn eval_dom(case: &DomCase, obs: &mut CaseObs) -> Verdict {
+pub fn eval_dom(case: &DomCase, obs: &mut CaseObs) -> Verdict {
     let spec = &case.spec;
     let checker = SimpleDominanceChecker::new(GenDom(spec.clone()), MAX_DEPTH);
     let mut reference = RefFront::default();
@@ -325,7 +325,7 @@ struct REntry {
     ub: isize,
     tag: usize,
 }
-fn eval_fringe(case: &FringeCase, obs: &mut CaseObs) -> Verdict {
+pub fn eval_fringe(case: &FringeCase, obs: &mut CaseObs) -> Verdict {
     let rank = U8Rank;
     let mut simple = SimpleFringe::new(MaxUB::new(&rank));
     let mut nodup = NoDupFringe::new(MaxUB::new(&rank));
@@ -719,7 +719,7 @@ impl Problem for NVars {
 }
 const CACHE_STATES: u8 = 3;
 const CACHE_DEPTHS: usize = 3;
-fn eval_cache(case: &CacheCase, obs: &mut CaseObs) -> Verdict {
+pub fn eval_cache(case: &CacheCase, obs: &mut CaseObs) -> Verdict {
     let mut cache: SimpleCache<u8> = Default::default();
     cache.initialize(&NVars(CACHE_DEPTHS - 1));
     let mut empty: EmptyCache<u8> = Default::default();
